@@ -61,6 +61,8 @@ def engine_obs(exe, engines, text, plan, work, tag, timeout=120):
     with open(path, "w") as f:
         f.write(text)
     rc, out, err = run([exe, ",".join(engines), path], inp=plan, timeout=timeout)
+    if rc == -99:      # a loaded machine: one more try with a generous limit before calling it a hang
+        rc, out, err = run([exe, ",".join(engines), path], inp=plan, timeout=4 * timeout)
     obs = []
     for l in out.split("\n"):
         if l.startswith("P "):
@@ -351,10 +353,12 @@ def main():
 
 def replay(ck, exes, work, always):
     path = ck.replay
+    sig = None
     if path.endswith(".mir"):
         text = open(path).read()
         meta = json.load(open(path[:-4] + ".json"))
         calls, entries, args = meta["calls"], None, None
+        sig = meta.get("signature")
     else:
         rep = json.load(open(path))
         text = rep["mir"]
@@ -376,7 +380,8 @@ def replay(ck, exes, work, always):
         fails = bool(f)
     ck.cov.update(evaluations=1, distinct_nontrivial=1, rule="replay of one saved program")
     if fails:
-        ck.violation({"stage": "replay", "file": path, "mir": text}, what=f"replayed program {os.path.basename(path)} still fails")
+        ck.violation({"stage": "replay", "file": path, "mir": text}, what=f"replayed program {os.path.basename(path)} still fails",
+                     signature=sig)
 
 
 def body(ck, quick, exes, lower_exe, work, always):
